@@ -23,7 +23,20 @@ FailedSpec(r) ==
       THEN {} ELSE {"expand_input_ranges_is_exactly_the_product"})
 \cup (IF r.raised # "" \/ \A j \in DOMAIN r.wired : r.wired[j] THEN {} ELSE {"decoder_built_for_its_own_code_noise_rate"})
 
+(* kind "decoder_params": one decoder built by read_input_dict from a spec   *)
+(* that sets constructor parameters: `requested` / `echoed` (decoder.params) *)
+(* are sequences of <<name, value text>>; `components` lists, for the       *)
+(* decoder and every decoder object it is made of, each attribute that     *)
+(* carries a requested parameter's name: <<owner, name, value text>>.       *)
+FailedDecoderParams(r) ==
+     (IF r.raised = "" THEN {} ELSE {"reading_the_specification_raised"})
+\cup (IF r.raised # "" \/ \A q \in AsSet(r.requested) : q \in AsSet(r.echoed)
+      THEN {} ELSE {"decoder_reports_the_requested_parameters"})
+\cup (IF r.raised # "" \/ \A c \in AsSet(r.components) : <<c[2], c[3]>> \in AsSet(r.requested)
+      THEN {} ELSE {"every_component_built_with_the_requested_parameters"})
+
 Failed(r) == CASE r.kind = "spec" -> FailedSpec(r)
+               [] r.kind = "decoder_params" -> FailedDecoderParams(r)
                [] r.kind = "registry" -> IF r.name = r.resolved THEN {} ELSE {"registered_name_resolves_to_class_of_that_name"}
                [] r.kind = "rebuild" -> IF r.original = r.rebuilt THEN {} ELSE {"rebuilt_from_recorded_inputs_is_identical"}
 
